@@ -17,6 +17,8 @@ import PyodaModel.Codec
 import PyodaProofs.Basic
 import PyodaProofs.C14Lemmas
 import PyodaProofs.C20Lemmas
+import PyodaProofs.C20Bounds
+import PyodaProofs.C20Kinds
 
 namespace Pyoda.C20
 open Pyoda Pyoda.Codec
@@ -178,6 +180,46 @@ theorem truncation_inside_field (fields : List (Nat × Bytes)) (id n : Nat) (par
   unfold translate
   simp only
   split <;> rfl
+
+/-- Cutting a well-formed stream (version 0, complete fields) at ANY position short of its end gives the documented
+    error, or — exactly when the cut falls on a field boundary — the well-formed stream of its first `k` fields.
+    With `truncation_inside_field` this covers the whole prefix space. -/
+theorem truncation_anywhere (fields : List (Nat × Bytes)) (hf : ∀ f ∈ fields, (f.2.length : Int) ≤ INT_MAX)
+    (n : Nat) (hn : n < (wellFormed fields).length) :
+    fromStream ((wellFormed fields).take n) = .error .invalidData ∨
+    ∃ k, k < fields.length ∧ (wellFormed fields).take n = wellFormed (fields.take k) :=
+  truncation_anywhere_aux fields hf n hn
+
+/-- Work bound with the alias factor. `bytesHanded` = bytes given to decoders by load + list + fetch-all (framing pass,
+    one handler pass per field payload, one `create_zone` pass per listed id over its zone field); every decoder is one
+    left-to-right structural recursion over what it is given. The payloads are disjoint slices (`payloadBytes_le`), a
+    zone field is one of them (`zoneField_le_stream`), hence
+    `bytesHanded ≤ |bytes| · (2 + #ids)`; `#ids` cannot be dropped (k aliases of one zone decode it k times). -/
+theorem loadAndUse_work_bound (bytes : Bytes) : bytesHanded bytes ≤ bytes.length * (2 + idCount bytes) :=
+  bytesHanded_bound bytes
+
+/-- the framed payloads are disjoint slices of the stream -/
+theorem payloads_fit (bytes : Bytes) :
+    payloadBytes (splitFields bytes.length bytes) + 2 * (splitFields bytes.length bytes).length ≤ bytes.length :=
+  payloadBytes_le bytes.length bytes
+
+/-! ## the entry points as written are the specification
+
+  `fromStreamRaw`/`forIdRaw`/`loadAndUseRaw` model the repaired code literally (`try` body + `except` tuple). Every
+  failure kind that can arise inside the two `try` blocks — through all readers, constructors and the tail-rule
+  evaluation — is `InvalidPyodaDataError` or in the tuple (`fromStreamBody_kinds`, `createZoneBody_k7`; the Decimal
+  helper never fails there because its operands are range-checked first), so nothing else can escape. -/
+
+theorem fromStream_as_written (bytes : Bytes) : fromStreamRaw bytes = fromStream bytes := fromStreamRaw_eq_spec bytes
+
+theorem forId_as_written (d : StreamData) (id : Str) (h : id ∈ getIds d) : forIdRaw d id = forId d id :=
+  forIdRaw_eq_spec d id h
+
+/-- C20 for the code as written (model): load, list ids, fetch every zone — a result or `invalidData`, for ALL bytes -/
+theorem loadAndUseRaw_outcome (bytes : Bytes) :
+    (∃ n, loadAndUseRaw bytes = .ok n) ∨ loadAndUseRaw bytes = .error .invalidData := by
+  rw [loadAndUseRaw_eq_spec]
+  exact loadAndUse_outcome bytes
 
 /-- the progress hypothesis holds for the element readers of the string pool, the id map and the pooled names -/
 theorem element_readers_progress (pool : Option (List Str)) :
